@@ -32,9 +32,35 @@ def mutate(d, b):
         if not b:
             b = bytearray(d.bytes(d.int(1, 4)))
             continue
-        r = d.int(0, 11)
+        r = d.int(0, 14)
         i = d.int(0, len(b) - 1)
         hdrs = _header_positions(bytes(b)) if r >= 6 else []
+        if r >= 12:
+            # one element overwritten by a copy of one of its siblings (a member sent twice, another one missing)
+            try:
+                fams = [n.kids for top in x690.walk_all(bytes(b)) for n in x690.nodes(top) if n.con and len(n.kids) >= 2]
+            except (x690.RefError, IndexError):
+                fams = []
+            if fams:
+                kids = fams[d.int(0, len(fams) - 1)]
+                x = d.int(0, len(kids) - 1)
+                y = (x + 1 + d.int(0, len(kids) - 2)) % len(kids)
+                src, dst = kids[x], kids[y]
+                data = bytes(b)
+
+                def rebuild(n):
+                    if n is dst:
+                        return data[src.start:src.end]
+                    if not n.con:
+                        return data[n.start:n.end]
+                    body = b''.join(rebuild(k) for k in n.kids)
+                    return x690.ident(n.cls, True, n.num) + x690.length(len(body)) + body      # lengths follow the new contents
+                try:
+                    b = bytearray(b''.join(rebuild(top) for top in x690.walk_all(data)))
+                    continue
+                except (x690.RefError, IndexError, RecursionError):
+                    pass
+            r = 11
         if r == 0:
             b[i] ^= 1 << d.int(0, 7)
         elif r == 1:
